@@ -202,6 +202,22 @@ theorem qpt_cols [Field K] (flag : Bool) (rho e a : List K) (b : K) (he : e.leng
       simp [← h.1, List.length_drop, he] at hl ⊢
       omega
 
+/-- C08.2 `matA_cols` (POVMT): every row has `(m−1)·n` (flag) resp. `m·n` entries = `num_variables`. -/
+theorem povmt_cols [Field K] (flag : Bool) (r : K) (m : Nat) (rho : List K) (x : Nat) (a : List K) (b : K)
+    (hx : x < m) (h : povmtRow flag r m rho x = some (a, b)) :
+    a.length = (if flag then m - 1 else m) * rho.length :=
+  povmt_cols' flag r m rho x a b hx h
+
+/-- C08.2 `matA_cols` (QMPT): every row built by `cqpt_to_cqmpt` for a schedule has `m·n² − n` (flag; written
+`(m−1)·n² + (n² − n)`) resp. `m·n²` entries = `num_variables`. -/
+theorem qmpt_cols [Field K] (flag : Bool) (m : Nat) (rho : List K) (povm : List (List K))
+    (rows : List (List K × K)) (hm : 0 < m) (hr : 0 < rho.length)
+    (hE : ∀ e ∈ povm, e.length = rho.length) (h : qmptSched flag m rho povm = some rows) :
+    ∀ ab ∈ rows, ab.1.length =
+      if flag then (m - 1) * (rho.length * rho.length) + (rho.length * rho.length - rho.length)
+      else m * (rho.length * rho.length) :=
+  qmpt_cols' flag m rho povm rows hm hr hE h
+
 /-- C08.4 `_partial`: `calc_prob_dists` with **equal outcome counts** `c` per schedule: the coded
 `reshape((num_schedules, -1))` recovers the per-schedule distributions, which are then passed through
 `truncate_and_normalize` (the identity on proper distributions, `truncNorm_id`).
